@@ -207,6 +207,7 @@ def h_step(opname: str, depth_kind: str, requires_grad: bool):
         info = {"op": opname, "depth": depth_kind, "requires_grad": requires_grad}
         sel = z3.Int("tag_sel")
         c.assumes += [sel >= 0, sel <= 3]
+        c.extra_vars["tag_sel"] = sel
         _REG["tag"] = sel
         tag = SymTag("tag")
         depth: Any = None
